@@ -46,7 +46,7 @@ PROP = {
                    "insertion is positive and a nested map without buckets holds no key. ResetKey replaces a key in place without a version change "
                    "(as in the source) and is excluded from bump_on_mutation. Array index iterators carry no version: only the range / same-array "
                    "checks are claimed for them."),
-    "modules": ["Momo.Props.C15"],
+    "modules": ["Momo.Props.C15", "Momo.Props.C15Table"],
     "theorems": [
         "Momo.Ver.C15_stale_keeper_fails",
         "Momo.Ver.C15_fresh_keeper_passes",
@@ -119,6 +119,15 @@ PROP = {
         "Momo.Ver.C15_table_history_ref_fresh",
         "Momo.Ver.C15_table_history_selection_fresh",
         "Momo.Ver.C15_table_history_bounds_fresh",
+        "Momo.Ver.C15_table_update_foreign_row_rejected",
+        "Momo.Ver.C15_table_update_own_row",
+        "Momo.Ver.C15_tableX_rejected_unchanged",
+        "Momo.Ver.C15_tableX_iter_world",
+        "Momo.Ver.C15_bounds_iter_eq_index",
+        "Momo.Ver.C15_bounds_advance_table",
+        "Momo.Ver.C15_bounds_advance_rejected",
+        "Momo.Ver.C15_bounds_advance_accepted",
+        "Momo.Ver.C15_bounds_iter_history",
         "Momo.Ver.C15_array_index_table",
         "Momo.Ver.C15_array_iterator_table",
         "Momo.Ver.C15_array_nogrow_table",
@@ -145,7 +154,17 @@ PROP = {
              "Remove(begin,end), ++/-- at both ends), multimap 5 x 9 x 26 x 17/9 (key iterators and value iterators; InsertKey moves only the key "
              "version), table 3 x 11 x 24 x 17/12/3 (references from operator[] / insertion / refused insertion / selection / row pointer / hash "
              "bounds; TryAdd, TryInsert, TryUpdate(row) and (column), Remove / Extract by reference and number, Clear, Remove(filter) with and "
-             "without effect, Remove(begin,end) and Assign(begin,end) over reference vectors and over selection iterators, Reserve), arrays: every "
+             "without effect, Remove(begin,end) and Assign(begin,end) over reference vectors and over selection iterators, Reserve; since the repairs F31 / F32 "
+             "also TryUpdate / Update(row number, detached row of the other table) as a 25th entry point that must be refused without effect, and for hash "
+             "bounds the iterator uses GetBegin() += i for i = 0, count, count + 1 and *(GetBegin() + i) for i = 0, count - 1, count - model lines "
+             "updrowof / mbadv / mbit of Model/VerTableX.lean; a misuse whose omission would corrupt memory is tried in a forked child first), plus a "
+             "directed block per table state and after every fourth random history (property level, no model lines; ~90 uses that are wrong or right "
+             "whatever happened before): constTable[count], TryAdd / Add / TryInsert / Insert / TryUpdate / Update / FindByUniqueHash with a detached row "
+             "of the other table, FindByUniqueHash(empty index, row), an index over a mutable column or over one column twice, Select / SelectCount with "
+             "one column twice, GetMutable of an immutable column, and every += / - / < / * / -> / [] check of the iterators of row pointers "
+             "(FindByUniqueHash: no row / one row), row bounds (FindByMultiHash: no row, one row = key without value array, several rows), selections, "
+             "the table, a default-constructed row iterator and column item bounds, across handles of the same and of the other table, range Add / "
+             "Assign / Insert of a selection with rows of the other table (incl. two own rows first: the rollback) - each with its accepted counterpart), arrays: every "
              "index / count around the size plus SIZE_MAX-2..SIZE_MAX, 2^63, 2^32 for operator[], Insert, Remove(index,count), RemoveBack, "
              "GetBackItem (each also through a const reference), AddBackNogrow / AddBackNogrowVar / AddBackNogrowCrt item by item up to the "
              "capacity and twice beyond (after construction, Reserve, RemoveBack, Clear; capacity read from the real object and written on the "
